@@ -202,7 +202,7 @@ class SRRLaser(Laser):
         # Calculate the line lengths
         mag = self.config.magnification
         mag = np.round(1.0 / mag if mag < 1.0 else mag).astype(int)
-        mag_axis = 0 if self.config.magnification > 1.0 else 1
+        mag_axis = 0 if self.config.magnification >= 1.0 else 1
 
         length = (
             self.data[1].shape[mag_axis] * mag,
